@@ -546,6 +546,76 @@ func (e *Engine) addEnvIntrinsics() {
 		s2, n2 := c.s.timeParts(c.args[1])
 		return andValue(c.s.eqValue(s1, s2), n1 == n2)
 	}
+	in["(time.Time).AppendFormat"] = func(c *callCtx) Value {
+		sec, ns := c.s.timeParts(c.args[0])
+		layout := c.str(2)
+		var text Value
+		if t, ok := sec.(*Term); ok {
+			text = c.s.env.formatSym(c.s, c.w, t, layout)
+		} else {
+			nt := nativeTime(sec.(uint64), ns).UTC()
+			if nv, ok := c.args[0].(Agg)[2].(NativeVal); ok {
+				nt = nt.In(nv.V.(*time.Location))
+			}
+			text = nt.Format(layout)
+		}
+		return c.s.appendSlice(c.args[1].(Slice), text, types.Typ[types.Uint8])
+	}
+	// calendar getters on concrete times (native)
+	getter := func(f func(time.Time) int64) Intrinsic {
+		return func(c *callCtx) Value {
+			sec, ns := c.s.timeParts(c.args[0])
+			if _, ok := sec.(*Term); ok {
+				c.s.unsupported("%s of a symbolic time", c.fn.Name())
+			}
+			nt := nativeTime(sec.(uint64), ns).UTC()
+			if nv, ok := c.args[0].(Agg)[2].(NativeVal); ok {
+				nt = nt.In(nv.V.(*time.Location))
+			}
+			return uint64(f(nt))
+		}
+	}
+	in["(time.Time).Year"] = getter(func(t time.Time) int64 { return int64(t.Year()) })
+	in["(time.Time).Month"] = getter(func(t time.Time) int64 { return int64(t.Month()) })
+	in["(time.Time).Day"] = getter(func(t time.Time) int64 { return int64(t.Day()) })
+	in["(time.Time).Hour"] = getter(func(t time.Time) int64 { return int64(t.Hour()) })
+	in["(time.Time).Minute"] = getter(func(t time.Time) int64 { return int64(t.Minute()) })
+	in["(time.Time).Second"] = getter(func(t time.Time) int64 { return int64(t.Second()) })
+	in["(time.Time).Nanosecond"] = getter(func(t time.Time) int64 { return int64(t.Nanosecond()) })
+	in["(time.Time).YearDay"] = getter(func(t time.Time) int64 { return int64(t.YearDay()) })
+	in["(time.Time).Weekday"] = getter(func(t time.Time) int64 { return int64(t.Weekday()) })
+	in["(time.Time).UnixMilli"] = func(c *callCtx) Value {
+		sec, ns := c.s.timeParts(c.args[0])
+		if t, ok := sec.(*Term); ok {
+			return mkIntBin(OMul, t, mkIntC(1000))
+		}
+		return uint64((int64(sec.(uint64))-unixToInternal)*1000 + int64(ns)/1e6)
+	}
+	in["(time.Time).UnixMicro"] = func(c *callCtx) Value {
+		sec, ns := c.s.timeParts(c.args[0])
+		if t, ok := sec.(*Term); ok {
+			return mkIntBin(OMul, t, mkIntC(1000000))
+		}
+		return uint64((int64(sec.(uint64))-unixToInternal)*1000000 + int64(ns)/1e3)
+	}
+	in["(time.Time).Sub"] = func(c *callCtx) Value {
+		s1, n1 := c.s.timeParts(c.args[0])
+		s2, n2 := c.s.timeParts(c.args[1])
+		t1, sym1 := s1.(*Term)
+		t2, sym2 := s2.(*Term)
+		if !sym1 && !sym2 {
+			return uint64((int64(s1.(uint64))-int64(s2.(uint64)))*1e9 + int64(n1) - int64(n2))
+		}
+		if !sym1 {
+			t1 = mkIntC(int64(s1.(uint64)) - unixToInternal)
+		}
+		if !sym2 {
+			t2 = mkIntC(int64(s2.(uint64)) - unixToInternal)
+		}
+		return mkIntBin(OMul, mkIntBin(OSub, t1, t2), mkIntC(1e9))
+	}
+	in["time.Since"] = nil
+	delete(in, "time.Since")
 	in["(time.Time).String"] = func(c *callCtx) Value { return "<time>" }
 	in["(time.Duration).String"] = func(c *callCtx) Value { return time.Duration(int64(c.args[0].(uint64))).String() }
 
@@ -1098,9 +1168,9 @@ func (s *State) toNativeTyped(w *Worker, v Value, t types.Type) (interface{}, st
 		}
 		return out, ""
 	case *types.Chan:
-		return nil, "json: unsupported type: " + types.TypeString(t, nil)
+		return nil, "json: unsupported type: " + shortTypeString(t)
 	case *types.Signature:
-		return nil, "json: unsupported type: " + types.TypeString(t, nil)
+		return nil, "json: unsupported type: " + shortTypeString(t)
 	case *types.Pointer:
 		p := v.(Ptr)
 		if p.ID == 0 {
@@ -1387,4 +1457,9 @@ func (s *State) drainBlocked(self *Thread) bool {
 		}
 	}
 	return false
+}
+
+// shortTypeString renders a type the way package reflect does (package name, not import path).
+func shortTypeString(t types.Type) string {
+	return types.TypeString(t, func(p *types.Package) string { return p.Name() })
 }
